@@ -5,7 +5,7 @@ import numpy as np
 
 from harness import common as C
 
-ANCHORS = ["T3", "T3b", "T8"]
+ANCHORS = ["T3", "T3b", "T8", "T8fwd"]
 MODELS = ["Decomp"]
 TARGETS = ["Gen/T3b.vo"]
 RULE = ("decision grid enumerated (solver x n_modes x shape x complex x dask x init_rank_reduction) for Decomposer and _SVD; "
@@ -522,9 +522,12 @@ def search(ctx):
         sv = np.linalg.svd(X, compute_uv=False)
         tv = float(X.var(axis=0, ddof=1).sum())
         cumv = np.cumsum(sv ** 2 / (n - 1) / tv)
-        for f in [0.3, 0.5, 0.8, 0.9, 0.99]:
+        for f in [0.3, 0.5, 0.8, 0.9, 0.99, 1.0]:
             idx = np.nonzero(cumv >= f)[0]
             want = int(idx[0]) + 1 if len(idx) else len(cumv)
+            # the fraction 1.0 ("all the variance") sits on a rounding boundary of the cumulative sum: any count from the first mode
+            # that reaches 1 - 1e-9 up to all precomputed modes is the documented behaviour
+            lo = int(np.nonzero(cumv >= 1.0 - 1e-9)[0][0]) + 1 if f == 1.0 and np.any(cumv >= 1.0 - 1e-9) else want
             for which in ("dec", "svd"):
                 try:
                     if which == "dec":
@@ -535,7 +538,7 @@ def search(ctx):
                         kept = len(S._SVD(n_modes=f, init_rank_reduction=1.0, solver="full").fit_transform(X)[1])
                 except Exception as e:
                     kept = "error:" + C.errkind(e)
-                if kept != want:
+                if kept != want and not (f == 1.0 and isinstance(kept, int) and lo <= kept <= len(cumv)):
                     ctx.violation("C15:threshold:%s" % which,
                                   "fraction %r of spectrum %s keeps %r modes, the least sufficient number is %d" % (f, name, kept, want),
                                   dict(kind="threshold", cls=which, s=list(map(float, sv)), n=n, p=p, frac=f, kept=kept, want=want))
